@@ -8,7 +8,8 @@ state machine over unbounded inputs), nor panic-freedom of its index arithmetic.
       site on the End arm; neither is called anywhere else in the crate
   (3) last-sibling flag: open_item's argument is next_sibling().is_none() of the node being opened
   (4) table agreement of the guide strings for all four (is_last_item, is_first_line) combinations (evaluated by E2)
-  (5) the Display and Debug bodies are the same program up to the formatting trait and format spec (canonical MIR comparison)
+  (5) format modes: in each fmt body every payload write is selected by f.alternate(), with one template per mode used at every site, the bare placeholder for the plain mode,
+      the trait of the impl as formatting trait, and the same template pair in Display and Debug
 """
 import json, re
 from vlib import facts, rules, e2props, xcfg
@@ -124,17 +125,64 @@ def main(tier):
         lits = [rules.origin(prog, cpi, t["args"][1]) for _, t in prog.calls(cpi) if rules.callee_name(t["callee"]).endswith("Formatter::<'a>::write_str")]
         consts = sorted({o[1] for org in lits for o in org if o[0] == "const" and isinstance(o[1], str)})
         run.ob("tables", "complete_partial_indent pads pending levels with the blank guide: %s" % consts, consts == ["    "], key="tables|pending-level padding literal is %s" % consts, detail=consts, nontrivial="pad")
-    # (5) Display vs Debug bodies
-    fd, fg = prog.fns.get(FMT_D), prog.fns.get(FMT_G)
-    if fd and fg:
-        def norm(f):
-            t = xcfg.canon_fn(prog, f)
-            t = t.replace("Debug", "Display").replace("new_debug", "new_display")
-            t = re.sub(r'"(mem|ptr|str|opaque)": "[^"]*"', r'"\\1": "_"', t)
-            return t
-        a, b = norm(fd), norm(fg)
-        run.ob("modes", "Display::fmt and Debug::fmt are the same program up to the formatting trait and format spec", a == b,
-               key="modes|Display and Debug printers differ beyond the formatting trait", detail=None if a == b else xcfg.first_difference(a, b), nontrivial="modes", sample=True)
+    # (5) format modes, per body: every payload write picks its format by f.alternate(); the template on each arm is the same at every site; the trait matches the impl
+    arm_tpl = {}
+    for key in (FMT_D, FMT_G):
+        f = prog.fns.get(key)
+        if f is None:
+            continue
+        short = "Display" if "Display" in key else "Debug"
+        cfg = CFG(f["mir"])
+        calls = [(bi, t, rules.callee_name(t["callee"])) for bi, t in prog.calls(f)]
+        alt = [c for c in calls if c[2].endswith("Formatter::<'a>::alternate")]
+        sws = []
+        for bi, t in prog.terms(f):
+            if t["k"] == "switch" and prog.ty(t["ty"])["k"] == "bool":
+                org = rules.origin(prog, f, t["discr"])
+                if any(o[0] == "call" and o[1].endswith("Formatter::<'a>::alternate") for o in org) and len(t["arms"]) == 1 and t["arms"][0][0] == 0:
+                    sws.append((bi, t["arms"][0][1], t["otherwise"]))      # (block, target when false, target when true)
+        wf = [c for c in calls if c[2].endswith("::write_fmt")]
+        run.floor("%s::fmt payload writes" % short, len(wf), 2)
+        per_arm = {True: set(), False: set()}
+        for (bi, t, n) in wf:
+            arm = None
+            for (sb, tf, tt) in sws:
+                if cfg.dominates(tt, bi) and not cfg.dominates(tf, bi):
+                    arm = True
+                elif cfg.dominates(tf, bi) and not cfg.dominates(tt, bi):
+                    arm = False
+            org = rules.origin(prog, f, t["args"][1])
+            an = [o for o in org if o[0] == "call" and "Arguments" in o[1]]
+            tpl, ctor = None, None
+            for bj, tj, nj in calls:
+                if nj.endswith("Arguments::<'a>::new") and cfg.dominates(bj, bi) and (arm is None or any(cfg.dominates(x, bj) for x in [s_[2] if arm else s_[1] for s_ in sws])):
+                    o1 = rules.origin(prog, f, tj["args"][0])
+                    cs = [o for o in o1 if o[0] == "const"]
+                    cand = None
+                    for bk, sk, st_ in prog.stmts(f):
+                        if bk == bj and st_["k"] == "assign" and st_["rv"]["k"] == "use" and st_["rv"]["op"].get("k") == "const" and st_["rv"]["op"].get("ptr"):
+                            cand = st_["rv"]["op"]["ptr"]
+                    if cand and (tpl is None or cfg.dominates(bj, bi)):
+                        tpl = cand
+                if nj.startswith("core::fmt::rt::Argument::<'_>::new_") and cfg.dominates(bj, bi):
+                    ctor = nj.rsplit("::", 1)[-1]
+            run.ob("modes", "%s::fmt: payload write is selected by f.alternate()" % short, arm is not None,
+                   key="modes|%s::fmt writes a payload without consulting f.alternate()" % short, loc=prog.loc(t.get("span")), nontrivial=(short, "guard", arm))
+            if arm is not None:
+                per_arm[arm].add(tpl)
+            want = "new_display" if short == "Display" else "new_debug"
+            run.ob("modes", "%s::fmt: payload is formatted through the %s trait" % (short, short), ctor == want, key="modes|%s::fmt formats a payload through %s" % (short, ctor), nontrivial=(short, "trait"))
+        ok = len(per_arm[True]) == 1 and len(per_arm[False]) == 1 and per_arm[True] != per_arm[False] and None not in per_arm[True] | per_arm[False]
+        run.ob("modes", "%s::fmt: one format template per mode, the same at every site, and the two modes differ" % short, ok,
+               key="modes|%s::fmt: format templates per mode are %s / %s" % (short, sorted(map(str, per_arm[False])), sorted(map(str, per_arm[True]))), detail={str(k): sorted(map(str, v)) for k, v in per_arm.items()},
+               nontrivial=(short, "templates"), sample=True)
+        if ok:
+            plain = next(iter(per_arm[False]))
+            run.ob("modes", "%s::fmt: the non-alternate mode uses the bare placeholder `{}`" % short, plain.startswith("mem{c000}"), key="modes|%s::fmt: non-alternate template is not the bare placeholder" % short, detail=plain)
+            arm_tpl[short] = (plain, next(iter(per_arm[True])))
+    if len(arm_tpl) == 2:
+        run.ob("modes", "Display and Debug use the same pair of templates (they differ only in the trait)", arm_tpl["Display"] == arm_tpl["Debug"],
+               key="modes|Display and Debug use different format templates", detail=arm_tpl, nontrivial="modes-x")
     run.assumptions += ["C09 (Traverse yields the subtree's Euler tour)", "payload Display/Debug impls do not panic and do not touch the arena"]
     return run.finish()
 
